@@ -353,17 +353,29 @@ def run(ctx: Ctx):
     isb = repo.func("Project.initScoreboards")
     gi = cfg_of(isb)
 
+    res_i = local_resolver(isb.node)
+
+    def from_end(x):
+        """the argument is the project's current end: written in place, or a local name every definition of which is"""
+        if "'end'" in norm(x).replace('"', "'"):
+            return True
+        if isinstance(x, ast.Name):
+            ds = res_i(x)
+            return bool(ds) and all("'end'" in norm(d).replace('"', "'") for d in ds)
+        return False
+
     def builds(n):
         a = n.ast
-        return n.kind == "stmt" and isinstance(a, ast.Assign) and norm(a.targets[0]) == "self.scoreboard" and isinstance(a.value, ast.Call) \
-            and norm(a.value.func) == "Scoreboard" and any("'end'" in norm(x).replace('"', "'") for x in a.value.args)
+        return n.kind == "stmt" and isinstance(a, ast.Assign) and any(norm(t) == "self.scoreboard" for t in a.targets) and isinstance(a.value, ast.Call) \
+            and norm(a.value.func) == "Scoreboard" and any(from_end(x) for x in a.value.args)
 
     def reuse_compares_end(n):
         if n.kind != "if" or n.ast is None:
             return False
         t = norm(n.ast.test if isinstance(n.ast, ast.If) else n.ast).replace('"', "'")
         return "endDate" in t and "'end'" in t
-    size_user = [n for n in gi.nodes if n.ast is not None and n.kind == "stmt" and "scoreboardSize()" in norm(n.ast)]
+    size_user = [n for n in gi.nodes if n.ast is not None and n.kind in ("stmt", "for", "while", "if") and "scoreboardSize()" in
+                 norm(n.ast.iter if isinstance(n.ast, ast.For) else (n.ast.test if isinstance(n.ast, (ast.If, ast.While)) else n.ast))]
     if not size_user or not any(builds(n) for n in gi.nodes):
         raise AnchorMissing("Project.initScoreboards: table construction / size use not found")
     ok = all(gi.all_paths_pass(gi.entry, u, lambda n: builds(n) or reuse_compares_end(n)) for u in size_user)
